@@ -61,13 +61,13 @@ def make_enum(rnd, w):
                 disc = rust_discriminants(vs)
                 if len(set(disc) | set(a for v in vs for a in v["alts"])) != len(disc) + sum(len(v["alts"]) for v in vs):
                     continue
-        mode = rnd.choice(["none", "none", "catch", "default"])
-        if mode == "catch":
+        mode = rnd.choice(["none", "none", "catch", "default", "both"])
+        if mode in ("catch", "both"):
             # Rust gives the data-carrying catch-all variant the next implicit discriminant: it must be free
             nxt = rust_discriminants(vs)[-1] + 1
             if nxt in set(rust_discriminants(vs)) or nxt > (255 if w <= 8 else 65535):
                 continue
-        return dict(vs=vs, catchAll=(mode == "catch"), dflt=(rnd.randint(1, n) if mode == "default" else 0))
+        return dict(vs=vs, catchAll=(mode in ("catch", "both")), dflt=(rnd.randint(1, n) if mode in ("default", "both") else 0))
     return dict(vs=[dict(d=0, alts=[])], catchAll=False, dflt=0)
 
 
